@@ -539,6 +539,79 @@ def run(ctx):
         if got != want:
             ctx.fail(case, 'the on-disk assertion %s although the files hold %s frames'
                      % ('passes' if got else 'fails', 'equal' if want else 'different'))
+    # ---- the plural on-disk entry points: several (actual, reference) pairs, one of which - at any position -
+    # differs: the assertion fails; all equal: it passes
+    for it in range(12 if ctx.quick else 150):
+        npairs = rng.randint(2, 4)
+        bad = rng.choice([None, 0, 0, rng.randrange(npairs)])
+        fmt = rng.choice(['csv', 'parquet'])
+        aps, rps = [], []
+        for k in range(npairs):
+            n = rng.randint(2, 4)
+            ref = pd.DataFrame({'id': list(range(n)), 'amount': [rng.choice([1.5, 2.25, 30.125]) for _ in range(n)]})
+            act = ref.copy()
+            if k == bad:
+                act.loc[rng.randrange(n), 'amount'] += 1.0
+            rp = os.path.join(tmp, 'pairs%d-%d-ref.%s' % (it, k, fmt))
+            ap = os.path.join(tmp, 'pairs%d-%d-act.%s' % (it, k, fmt))
+            for fr, pth in ((ref, rp), (act, ap)):
+                (fr.to_parquet(pth) if fmt == 'parquet' else fr.to_csv(pth, index=False))
+            aps.append(ap)
+            rps.append(rp)
+        entry = rng.choice(['ondisk-list', 'csvfiles']) if fmt == 'csv' else 'ondisk-list'
+        case = {'scenario': 'several pairs of on-disk frames', 'pairs': npairs, 'differing_pair': bad, 'format': fmt, 'entry': entry}
+        ctx.count(repr(case) + str(it), True)
+        ctx.bump('several_pairs.%s' % ('none differs' if bad is None else 'last differs' if bad == npairs - 1 else 'earlier differs'))
+        try:
+            with contextlib.redirect_stdout(io.StringIO()):
+                (rt.assertOnDiskDataFramesCorrect if entry == 'ondisk-list' else rt.assertCSVFilesCorrect)(aps, rps)
+            got = True
+        except AssertFail:
+            got = False
+        except Exception as e:
+            ctx.fail(case, 'the assertion raised %s: %s' % (type(e).__name__, str(e)[:150]))
+            continue
+        if got != (bad is None):
+            ctx.fail(case, 'the assertion over %d pairs %s although %s' % (npairs, 'passes' if got else 'fails',
+                     'pair %d differs in one value' % bad if bad is not None else 'every pair holds equal frames'))
+    # ---- an in-memory frame against a CSV reference, default type matching (strict): a column whose dtype differs
+    # from what the reference loads as - even within its family (int32 / Int64 / float32 / boolean) - is a type difference
+    for it in range(16 if ctx.quick else 200):
+        n = rng.randint(2, 5)
+        ref = pd.DataFrame({'id': [rng.randint(0, 99) for _ in range(n)], 'amount': [rng.choice([1.5, 2.25, 7.0]) for _ in range(n)],
+                            'flag': [rng.random() < 0.5 for _ in range(n)]})
+        rp = os.path.join(tmp, 'csvref%d.csv' % it)
+        ref.to_csv(rp, index=False)
+        act = ref.copy()
+        col, to = rng.choice([(None, None), ('id', 'int32'), ('id', 'Int64'), ('amount', 'float32'), ('flag', 'boolean'), ('id', 'float64')])
+        if col:
+            act[col] = act[col].astype(to)
+        kw_ = rng.choice([{}, {}, {'type_matching': 'strict'}, {'check_types': ['id', 'amount', 'flag']}])
+        loaded = None
+        try:
+            with contextlib.redirect_stdout(io.StringIO()):
+                loaded = rt.pandas.load_serialized_dataframe(rp) if hasattr(rt.pandas, 'load_serialized_dataframe') else None
+        except Exception:
+            loaded = None
+        case = {'scenario': 'in-memory frame against a CSV reference', 'changed_column': col, 'to_dtype': to, 'options': kw_,
+                'reference': ref.to_dict('list')}
+        ctx.count(repr(case) + str(it), True)
+        ctx.bump('csv_reference.%s' % (to or 'same'))
+        # the reference's types are what the library's reader gives for the file; only judge when they are the plain ones
+        if loaded is not None and [str(t) for t in loaded.dtypes] != ['int64', 'float64', 'bool']:
+            continue
+        try:
+            with contextlib.redirect_stdout(io.StringIO()):
+                rt.assertDataFrameCorrect(act, rp, **kw_)
+            got = True
+        except AssertFail:
+            got = False
+        except Exception as e:
+            ctx.fail(case, 'the assertion raised %s: %s' % (type(e).__name__, str(e)[:150]))
+            continue
+        if got != (col is None):
+            ctx.fail(case, 'assertDataFrameCorrect against the CSV reference %s although column %r is %s (reference int64 / '
+                     'float64 / bool, strict type matching)' % ('passes' if got else 'fails', col, to or 'unchanged'))
     shutil.rmtree(tmp, ignore_errors=True)
     ctx.cov['rule'] = ('reference frames over 12 dtypes (nulls, inf, categoricals, extension types, non-string column names) x '
                        'one mutation (cell beyond / within precision, rename, retype, move, drop, extra, row drop/add, none) x '
